@@ -65,7 +65,7 @@ func cmdVerify(args []string) {
 		keys = strings.Split(*funcs, ",")
 	} else {
 		for k, fc := range eng.contracts {
-			if !fc.Extern && !strings.HasPrefix(k, "iface:") {
+			if !fc.Extern && !strings.HasPrefix(k, "iface:") && !strings.HasPrefix(k, "functype:") {
 				keys = append(keys, k)
 			}
 		}
@@ -80,7 +80,11 @@ func cmdVerify(args []string) {
 		}
 		nOut := 0
 		var tasks []verifyTask
-		for _, fn := range eng.ifaceTargets(*iface) {
+		targets := eng.ifaceTargets(*iface)
+		if strings.HasPrefix(*iface, "functype:") {
+			targets = eng.functypeTargets(*iface)
+		}
+		for _, fn := range targets {
 			fn := fn
 			if *only != "" && !strings.Contains(funcKey(fn), *only) {
 				continue
